@@ -680,7 +680,10 @@ func (s *Store) serveConn(c io.ReadWriteCloser, id int) {
 			// "not found" / "not stored" must be truthful: the entry is evicted first (an
 			// eviction is always legal for a cache), otherwise the backend would contradict
 			// its own contents, which no memcached does.
-			if flt.Status == StNotFound || flt.Status == StNotStored {
+			// "Key not found" always asserts absence; "not stored" asserts absence only as the
+			// answer to append / prepend - for set / add / replace it is a bare refusal.
+			if flt.Status == StNotFound || (flt.Status == StNotStored &&
+				(f.op == OpAppend || f.op == OpAppendQ || f.op == OpPrepend || f.op == OpPrependQ)) {
 				delete(s.m, string(f.key))
 			}
 		case FaultCloseBefore:
